@@ -45,3 +45,26 @@ func VerifEncryptStringLiteral(sl types.StringLiteral, objNr, genNr int, key []b
 func VerifDecryptStringLiteral(sl types.StringLiteral, objNr, genNr int, key []byte, needAES bool, r int) (*types.StringLiteral, error) {
 	return decryptStringLiteral(sl, objNr, genNr, key, needAES, r)
 }
+
+// Certificate pool cache (C40).
+func VerifResetCertificatePool() {
+	VerifResetGenerated()
+	model.VerifResetGenerated()
+}
+
+// VerifUserCertificatePoolSubjects: the subjects of the pool in-flight calls would use, "" when none.
+func VerifUserCertificatePoolSubjects() []string {
+	p := userCertificatePool()
+	if p == nil {
+		return nil
+	}
+	var out []string
+	for _, s := range p.Subjects() { //nolint:staticcheck
+		out = append(out, string(s))
+	}
+	return out
+}
+
+func VerifCertPoolState() (loaded bool, dir string, rev uint64) {
+	return trustedCertificatePool.loaded, trustedCertificatePool.dir, trustedCertificatePool.storeRevision
+}
